@@ -60,6 +60,12 @@ func init() {
 				d2, err := e.Decode(append([]byte{}, texts[i]...))
 				ok = err == nil && (bytes.Equal(d2, ins[i]) || (len(d2) == 0 && len(ins[i]) == 0))
 			}
+			if ok {
+				// ... and decoding a text does not change the text: the same buffer decodes to the same octets a second time
+				e.Decode(texts[i])
+				d3, err := e.Decode(texts[i])
+				ok = err == nil && (bytes.Equal(d3, ins[i]) || (len(d3) == 0 && len(ins[i]) == 0))
+			}
 			out = append(out, TBool(ok))
 		}
 		return out
